@@ -120,10 +120,10 @@ def h_ragged(l1: int, l2: int, l3: int, l4: int, l5: int, l6: int, l7: int, k: i
              idx=0, K=1, op='append', numtype='float64', atom=(), _gate=None, _small=False):
     ls = [l1, l2, l3, l4, l5, l6, l7]
     for l in ls[:K]:
-        assume(0 <= l <= RBIG)
+        assume(0 <= l <= RBIG // 16)        # K + 2 lengths must sum below 2^63 (int64 indices)
     for l in ls[K:]:
         assume(l == 0)
-    assume(0 <= k <= RBIG)
+    assume(0 <= k <= RBIG // 16)
     small(_small, k, idx, *ls[:K])
     w = new_world()
     put_ragged(D, w, '/w/r', ls[:K], numtype, 'little', atom)
